@@ -1,9 +1,11 @@
 package rules
 
 import (
+	"go/ast"
 	"go/token"
 	"go/types"
 	"sort"
+	"strconv"
 	"strings"
 
 	"golang.org/x/tools/go/ssa"
@@ -62,6 +64,7 @@ func runC03(c *Ctx) {
 	c03FailClosed(c)
 	c03Cache(c)
 	c03ExtensionRegistration(c)
+	c03RuleSwapPaired(c)
 	c03NoGlobalRuleMutation(c, "C03")
 }
 
@@ -787,6 +790,13 @@ func (c *Ctx) requestRoots() []*ssa.Function {
 	if n < 8 {
 		c.R.Fail("unresolved anchor: expected at least 8 Transport.Do implementations, found %d", n)
 	}
+	// package introspection is entered from generated resolvers while a request is served (the call graph is not followed
+	// through generated code): its exported functions and methods are request roots too
+	for _, f := range c.moduleFuncs(func(p string) bool { return p == pkgIntrosp }) {
+		if f.Parent() == nil && f.Object() != nil && f.Object().Exported() {
+			roots = append(roots, f)
+		}
+	}
 	return roots
 }
 
@@ -999,5 +1009,79 @@ func c03ExtensionRegistration(c *Ctx) {
 			}
 		}
 		c.R.Check(bad == "", "processExtensions/"+h, c.ipos(tas[0]), "independent comma-ok assertion", bad)
+	}
+}
+
+// c03RuleSwapPaired: disabling suggestions swaps validation rules in gqlparser's process-global rule set: a rule that decorates
+// its message with "Did you mean …" is removed and its WithoutSuggestions twin installed.  A removed rule without its twin is a
+// validation gate that silently disappears (documents it would have rejected are executed).  In package executor: every rule
+// name that is removed — a string literal handed to validator.RemoveRule, or rules.<X>Rule.Name anywhere in the package — has
+// a reference to rules.<X>RuleWithoutSuggestions, and vice versa (set-level pairing by gqlparser's exported names).
+func c03RuleSwapPaired(c *Ctx) {
+	c.R.Rule("rule-swap-paired", "package executor: the set of validation rules it removes from gqlparser's global rule set equals the set whose WithoutSuggestions variant it references (no rule is removed without its replacement)", 0)
+	tp := c.W.TPkg(pkgExecutor)
+	if tp == nil {
+		c.R.Fail("unresolved anchor: package executor")
+		return
+	}
+	removed := map[string]string{} // rule name -> position
+	twins := map[string]string{}
+	const rulesPkg = "github.com/vektah/gqlparser/v2/validator/rules"
+	for _, f := range tp.Syntax {
+		ast.Inspect(f, func(n ast.Node) bool {
+			switch x := n.(type) {
+			case *ast.CallExpr:
+				if sel, ok := x.Fun.(*ast.SelectorExpr); ok && sel.Sel.Name == "RemoveRule" && len(x.Args) == 1 {
+					if bl, ok := x.Args[0].(*ast.BasicLit); ok && bl.Kind == token.STRING {
+						if s, err := strconv.Unquote(bl.Value); err == nil {
+							removed[s] = c.pos(bl.Pos())
+						}
+					}
+				}
+			case *ast.SelectorExpr:
+				id, ok := x.X.(*ast.Ident)
+				if !ok {
+					// rules.XRule.Name
+					if inner, ok := x.X.(*ast.SelectorExpr); ok && x.Sel.Name == "Name" {
+						if pid, ok := inner.X.(*ast.Ident); ok {
+							if pn, ok := tp.TypesInfo.Uses[pid].(*types.PkgName); ok && pn.Imported().Path() == rulesPkg && strings.HasSuffix(inner.Sel.Name, "Rule") {
+								removed[strings.TrimSuffix(inner.Sel.Name, "Rule")] = c.pos(x.Pos())
+							}
+						}
+					}
+					return true
+				}
+				if pn, ok := tp.TypesInfo.Uses[id].(*types.PkgName); ok && pn.Imported().Path() == rulesPkg && strings.HasSuffix(x.Sel.Name, "RuleWithoutSuggestions") {
+					twins[strings.TrimSuffix(x.Sel.Name, "RuleWithoutSuggestions")] = c.pos(x.Pos())
+				}
+			}
+			return true
+		})
+	}
+	var names []string
+	for n := range removed {
+		names = append(names, n)
+	}
+	for n := range twins {
+		if _, ok := removed[n]; !ok {
+			names = append(names, n)
+		}
+	}
+	sort.Strings(names)
+	if len(names) == 0 {
+		c.R.Note("rule-swap", "graphql/executor", "package executor no longer swaps validation rules; nothing to judge")
+		return
+	}
+	for _, n := range names {
+		rp, isRemoved := removed[n]
+		tw, hasTwin := twins[n]
+		switch {
+		case isRemoved && hasTwin:
+			c.R.OK("rule:"+n, rp, "removed and replaced by its WithoutSuggestions variant ("+tw+")")
+		case isRemoved:
+			c.R.Bad("rule:"+n, rp, "the validation rule "+n+" is removed from gqlparser's global rule set but its replacement rules."+n+"RuleWithoutSuggestions is never referenced: with suggestions disabled, documents that only this rule rejects pass validation and are executed")
+		default:
+			c.R.Bad("rule:"+n, tw, "rules."+n+"RuleWithoutSuggestions is installed although the rule "+n+" is not removed: the pairing of the swap table is off (another rule loses its replacement)")
+		}
 	}
 }
